@@ -13,13 +13,19 @@ EXTENDS Trace_ImbMgr
 CONSTANTS LaneCount, LaneStrict,
           Family,      \* "simple": OooLanes (single-phase cipher lanes), "hmac": OooHmac (multi-phase hash lanes)
           LaneBlk,     \* hmac: block size 64 or 128
-          LaneRound    \* simple: kernel granularity (1; 4 for ZUC-EEA3)
+          LaneRound,   \* simple: kernel granularity (1; 4 for ZUC-EEA3)
+          LaneFloor,   \* simple: 1, or 16 for DOCSIS-BPI: only the whole blocks go through the lanes (the partial last block
+                       \* is ciphered when the job leaves its lane); 8 for DOCSIS-DES on AVX512
+          LaneSyncShort \* TRUE: a message shorter than LaneFloor never enters a lane (DOCSIS-BPI AES); FALSE: it takes a
+                       \* lane with length 0 (DOCSIS-DES x16)
 OS == INSTANCE OooLanes WITH L <- LaneCount, MAXLEN <- 65535, R <- LaneRound
 OH == INSTANCE OooHmac WITH L <- LaneCount, MAXLEN <- 65535, BLK <- LaneBlk,
                             PADMIN <- IF LaneBlk = 128 THEN 17 ELSE 9, Track <- FALSE
 NOJ == 0
 Empty == IF Family = "hmac" THEN OH!EmptyLanes ELSE OS!EmptyLanes
-Sub(st, j, t) == IF Family = "hmac" THEN OH!OSubmit(st, j, t.hlen) ELSE OS!OSubmit(st, j, t.len)
+Sub(st, j, t) == IF Family = "hmac" THEN OH!OSubmit(st, j, t.hlen)
+                 ELSE IF LaneFloor > 1 /\ t.len < LaneFloor /\ LaneSyncShort THEN [st |-> st, ret |-> j]
+                 ELSE OS!OSubmit(st, j, (t.len \div LaneFloor) * LaneFloor)
 Fl(st) == IF Family = "hmac" THEN OH!OFlush(st) ELSE OS!OFlush(st)
 
 VARIABLE ls          \* lane state of the family
